@@ -267,7 +267,16 @@ def r1(ctx):
                 calls.append(norm(ast.fix_missing_locations(ast.parse(ast.unparse(c2), mode="eval").body)))
             else:
                 calls.append(norm(c))
-    ok = any(c.startswith("deserialize_types[type_id](%s" % dvf.params[0]) for c in calls) and "registry[type_id]()" in calls and any(c.startswith("obj.deserialize(%s" % dvf.params[0]) for c in calls)
+    # (the instance may be held in any local: the one bound to the call of the registered class)
+    inst = set()
+    for a_ in walk_own(dvf.node):
+        if isinstance(a_, ast.Assign) and len(a_.targets) == 1 and isinstance(a_.targets[0], ast.Name) and isinstance(a_.value, ast.Call) and not a_.value.args and not a_.value.keywords:
+            an = dcfg.node_of(a_)
+            f2 = sym_expr(dvf, a_.value.func, an) if an is not None and isinstance(a_.value.func, ast.Name) else a_.value.func
+            if norm(f2) == "registry[type_id]":
+                inst.add(a_.targets[0].id)
+    ok = any(c.startswith("deserialize_types[type_id](%s" % dvf.params[0]) for c in calls) and "registry[type_id]()" in calls \
+        and any(c.startswith("%s.deserialize(%s" % (i_, dvf.params[0])) for c in calls for i_ in inst)
     ctx.check(ok, "C13.R1", dvf, "tag dispatch: builtin reader or registered class instance .deserialize(stream)", witness=calls[:12])
     ser = ctx.fn("%s:Serializable.serialize" % M)
     des = ctx.fn("%s:Serializable.deserialize" % M)
